@@ -96,7 +96,10 @@ def render (useSpec : Bool) (s : Schema) : String :=
     expr d|r LABEL|- INTS|- BOOLS|- ENVS|- TOKENS…      (ENVS: `3,0,t;1,2,f`, values in the order INTS then BOOLS;
                                                           TOKENS: prefix form `i N | t | f | a NAME | s NAME | u not|neg X | b OP L R`)
 model reply:  ast=<tree Python reads | !syntax> name=<rule method name | - | !syntax> values=v;v;…
-spec reply:   values=v;v;…        (a rule: `true` or `!AssertionError`) -/
+spec reply:   values=v;v;…        (a rule: `true` or `!AssertionError`)
+
+`range A B S` lines: reply `values=v,v,…` — model: what `for i in range(A, <stop as written>, S)` runs over; spec: the values
+ISO 10303-11 13.9.1 gives the loop variable of `REPEAT i := A TO B BY S` (at most 64). -/
 namespace BodyDrv
 open StepModel.GenPy.Body
 
@@ -179,6 +182,15 @@ partial def loop (useSpec : Bool) (h : IO.FS.Stream) (out : IO.FS.Stream) (cur :
   if line.isEmpty then return ()
   match (line.trimAscii.toString.splitOn " ").filter (· ≠ "") with
   | [] => loop useSpec h out cur bad
+  | ["range", a, b, st] =>
+    -- the values `for i in range(a, <stop as written>, s)` runs over (model) / ISO 10303-11 13.9.1 gives the loop variable (spec)
+    match a.toInt?, b.toInt?, st.toInt? with
+    | some a, some b, some st =>
+      let vs := if useSpec then StepModel.GenPy.Spec.Body.repeatValues 64 a b st
+                else StepModel.GenPy.Body.pyRange 64 a (StepModel.GenPy.Body.stopWritten b st) st
+      out.putStrLn ("values=" ++ ",".intercalate (vs.map toString))
+    | _, _, _ => out.putStrLn "bad-op"
+    loop useSpec h out cur bad
   | "expr" :: kind :: label :: ints :: bools :: envs :: toks =>
     out.putStrLn ((BodyDrv.reply useSpec kind label ints bools envs toks).getD "bad-op")
     loop useSpec h out cur bad
